@@ -617,6 +617,32 @@ def run(facts, tier):
     t9.nontrivial = {("bodies", nb)} if nb else set()
     rules.append(t9.finish())
 
+    # ---------------- T14.11 readers do not turn a parse error into end of input / a default
+    t11 = Rule("T14.11", "the first-party readers never discard a parse error: no `Result::ok`, `unwrap_or*` on a result of the format's scanner/parser in the reader modules, except "
+               "the reviewed probe `is this field a number` of the tabular reader (a swallowed error ends the stream silently: the rest of the input is lost, with --in-place the file is truncated)", floor=1)
+    REVIEWED_OK = {("jaq_json::read::parse_single_num", "ok"): "probing whether the text of a CSV/TSV field is a number; on failure the field is a string"}
+    nread = 0
+    for crate_ in ("jaq_fmts", "jaq_json"):
+        for j_ in facts.mir(crate_):
+            if j_.get("test") or not re.search(r"::read::", j_["def"]):
+                continue
+            nread += 1
+            b_ = Body(j_)
+            for i_, t_ in b_.calls():
+                m_ = re.search(r"^core::result::Result::<T, E>::(ok|unwrap_or_default|unwrap_or|unwrap_or_else|is_ok|is_err)$", t_.get("fn") or "")
+                if not m_:
+                    continue
+                ety = (t_.get("gargs") or ["", ""])[-1]
+                if re.search(r"core::num::|ParseIntError|ParseFloatError|Utf8Error|TryFromIntError|Infallible", ety):
+                    continue   # conversions of scalars, not the format's parser
+                key = (j_["def"].split("::{closure")[0], m_.group(1))
+                t11.examined((key, t_["sp"]), True, {"fn": key[0], "discards_with": key[1], "error_type": ety[:60], "reviewed": key in REVIEWED_OK})
+                if key not in REVIEWED_OK:
+                    t11.violate(f"discard/{key[0]}/{key[1]}", f"`{j_['def']}` discards a `{ety[:60]}` with `{key[1]}`: a malformed document is taken for the end of the input (or a default) instead of being reported", where=t_["sp"])
+    if nread < 40:
+        t11.missing_anchor(f"reader bodies ({nread} found)")
+    rules.append(t11.finish())
+
     explanation = ("Full round trips for all values are value-level and not decided (known gaps found by reading are listed in DESIGN.md D8). Decided: the first-party reader and writer tables agree "
                    "(TSV and CSV escapes are mutual inverses, CBOR kinds, XML keys, YAML special literals, domain errors), extracted from the typed HIR.")
     return finish("C14", "other", rules, t0, tier, explanation, ["third-party lexers/encoders (saphyr, xmlparser, ciborium, toml-span) implement their formats"])
